@@ -7,6 +7,8 @@
        ent   every data entry with all attributes and per-attribute change identifiers
        n     number of entries in the database,  tsmax  persisted maximum change timestamp
        idx   answers of the name -> uuid lookup table
+       idxt  number of idx_* tables present,  idxc  keys / ids they hold (+ digest of the per-table sizes)
+       bev   the backend's own consistency check on the file as found (verify_indexes, allids, RUV)
    before / after = the same projection from fault-free runs (start-up only / start-up + commit)
    verify = errors of the restarted server's own consistency check
    nextc  = identifier stamped by a probe write on the restarted server (clock set BACK)
